@@ -119,3 +119,76 @@ Proof.
     rewrite Hy. apply in_or_app. left. apply in_map. exact Hin.
   - intros s' R'. apply (after_stop_frozen c a s' Ht HI0 HW). exact R'.
 Qed.
+
+(* ---- liveness of stop(): no deadlock, rank, idle turns do not block *)
+Lemma worker_enabled : forall c a, AInv c a -> 5 <= mnum (a_m a) -> a_w a <> W7 ->
+  exists s' l, step the_prog true 1 (conc c a) = Some (s', l).
+Proof.
+  intros c [[fl q u st ini sc sr pu pre lg] m w ps dn] HI H5 HW. destruct HI. flds. subst.
+  unfold step. cbn [conc sh started tworker a_sh a_m a_w a_p].
+  rewrite (proj2 (Nat.leb_le 5 (mnum m)) H5).
+  destruct w as [| |e|e ph r| |]; try congruence.
+  - cbn. rewrite lookup_kr' by lia. destruct (Nat.ltb (mnum m) 11); cbn; eauto.
+  - cbn. destruct q; cbn; eauto.
+  - cbn. eauto.
+  - assert (Hrt : lookup rt (flags_of m) = Some true) by (apply lookup_rt; lia).
+    destruct ph as [|e'|e']; [destruct r as [|e' r]|..]; cbn; rewrite ?Hrt; cbn; eauto.
+  - cbn. rewrite Nat.add_comm. cbn. eauto.
+Qed.
+
+Lemma main_enabled_early : forall c a, AInv c a -> 7 <= mnum (a_m a) < 11 -> queue (a_sh a) = [] ->
+  (a_w a = W0 \/ a_w a = W1) -> exists s' l, step the_prog true 0 (conc c a) = Some (s', l).
+Proof.
+  intros c [[fl q u st ini sc sr pu pre lg] m w ps dn] HI H7 HQ HW. destruct HI. flds. subst.
+  unfold step. cbn [conc sh tmain tworker a_sh a_m a_w a_p].
+  assert (winfl_n w = 0) as -> by (destruct HW; subst; reflexivity).
+  destruct m; cbn in H7; try lia; cbn; eauto.
+Qed.
+
+Lemma stop_progress : forall c s, wf_config c = true -> reach the_prog c s ->
+  stop_called (sh s) = true -> stop_returned (sh s) = false ->
+  (exists t s' l, (t = 0 \/ t = 1) /\ step the_prog (threaded c) t s = Some (s', l)) /\
+  (forall t s' l, step the_prog (threaded c) t s = Some (s', l) ->
+     rank s' < rank s \/ (rank s' = rank s /\ idle_step s t l)) /\
+  (forall s' l, step the_prog (threaded c) 1 s = Some (s', l) -> rank s' = rank s ->
+     (exists s'' l', step the_prog (threaded c) 0 s = Some (s'', l')) \/
+     (exists s'' l', step the_prog (threaded c) 1 s' = Some (s'', l') /\ rank s'' < rank s')).
+Proof.
+  intros c s Hw R SC SR. unfold wf_config in Hw. apply andb_prop in Hw as [Ht _].
+  destruct (reach_described c s Ht R) as (a & -> & HI). pose proof HI as HI0. destruct HI. cbn [conc sh] in SC, SR.
+  rewrite i_sc in SC. rewrite i_sr in SR. apply Nat.leb_le in SC. apply Nat.leb_gt in SR. rewrite Ht.
+  split; [|split].
+  - (* no deadlock *)
+    clear HI0. destruct a as [[fl q u st ini sc sr pu pre lg] m w ps dn]. flds. subst fl st ini sc sr.
+    assert (HI0 : AInv c (mkA (mkShared (flags_of m) q u (Nat.leb 5 (mnum m)) (Nat.leb 6 (mnum m)) (Nat.leb 7 (mnum m))
+                                      (Nat.leb 13 (mnum m)) pu pre lg) m w ps dn)) by (constructor; flds; auto).
+    destruct m; cbn [mnum] in *; try lia.
+    + exists 0. unfold step. cbn. eauto.
+    + exists 0. unfold step. cbn. eauto.
+    + (* Queue.join() *) destruct u eqn:U.
+      * exists 0. unfold step. cbn. eauto.
+      * assert (w <> W7) by (intros X; apply i_w7 in X; lia).
+        destruct (worker_enabled _ _ HI0) as (s' & l & E); [cbn; lia|assumption|]. exists 1. eauto.
+    + exists 0. unfold step. cbn. eauto.
+    + (* Thread.join() *) destruct w eqn:EW.
+      6: { exists 0. unfold step. cbn. eauto. }
+      all: destruct (worker_enabled _ _ HI0) as (s' & l & E); [cbn; lia|cbn; discriminate|]; exists 1; eauto.
+    + exists 0. unfold step. cbn. eauto.
+  - (* rank *)
+    intros t s' l H. rewrite <- Ht in H. destruct (sim c a t s' l Ht HI0 H) as (a' & -> & _ & D & _).
+    rewrite !rank_conc. destruct D as [D|(D & I & _)]; auto.
+  - (* an idle turn does not block *)
+    intros s' l H EQ. rewrite <- Ht in H. destruct (sim c a 1 s' l Ht HI0 H) as (a' & -> & HI' & D & _).
+    rewrite !rank_conc in EQ. destruct D as [D|(_ & _ & HQ & w' & -> & HWW)]; [lia|].
+    destruct (Nat.lt_ge_cases (mnum (a_m a)) 11) as [L|G].
+    + left. apply main_enabled_early; auto. destruct HWW as [(? & _)|(? & _)]; auto.
+    + right. destruct HWW as [(_ & _ & ?)|(HW1 & ->)]; [lia|].
+      assert (EM : a_m a = MS5).
+      { destruct (a_m a) eqn:EM; cbn [mnum] in *; try lia; auto; exfalso;
+          (assert (X : a_w a = W7) by (apply i_joined; lia)); congruence. }
+      destruct a as [sh0 m0 w0 ps0 dn0]. cbn [a_sh a_m a_w a_p a_done] in *. subst m0 w0.
+      unfold step. cbn [conc sh tworker tmain a_sh a_m a_w a_p]. rewrite i_started. cbn. rewrite i_flags. cbn.
+      eexists _, _. split; [reflexivity|].
+      change (rank (conc c (mkA sh0 MS5 W7 ps0 dn0)) < rank (conc c (mkA sh0 MS5 W0 ps0 dn0))).
+      rewrite !rank_conc. unfold arank. cbn. lia.
+Qed.
